@@ -168,4 +168,134 @@ DetectLaw(base, ds) ==
           LET last == CHOOSE i \in Merged(ds) : /\ k \in KeysOf(ds[i].res.attrs)
                                                 /\ \A j \in Merged(ds) : k \in KeysOf(ds[j].res.attrs) => j <= i
           IN Lookup(o.attrs, k) = Lookup(ds[last].res.attrs, k)
+-----------------------------------------------------------------------------
+(* Composition of the SDK's own sources: Default() and New(ctx, opts...).       *)
+(* Transcribed from the doc comments of Default, New, Detect and of every With* *)
+(* option (sdk/resource), the changelog entry of the experimental instance id   *)
+(* ("populated ... with a DEFAULT value when OTEL_GO_X_RESOURCE is set"), the    *)
+(* OTel Resource SDK specification ("SDK-provided default value" of             *)
+(* service.name = unknown_service:<exe>; OTEL_RESOURCE_ATTRIBUTES; "if          *)
+(* service.name is also provided in OTEL_RESOURCE_ATTRIBUTES, then              *)
+(* OTEL_SERVICE_NAME takes precedence"; "the SDK MUST set telemetry.sdk.name to  *)
+(* opentelemetry") and the statement ("give OTEL_SERVICE_NAME and later          *)
+(* detectors precedence").                                                       *)
+(*                                                                               *)
+(* Keys are semantic-convention names.  The VALUES of the built-in detectors are *)
+(* environment specific, so values are SOURCE TAGS (who provided the winner):    *)
+(*   "gen"        generated / detected by the SDK itself                         *)
+(*   "env"        taken from OTEL_RESOURCE_ATTRIBUTES                            *)
+(*   "envsvc"     the value of OTEL_SERVICE_NAME                                 *)
+(*   "p1".."p9"   supplied by the option at that position of the option list     *)
+(* Environment setting e = [x, ra, sn, bad]:                                     *)
+(*   x   : OTEL_GO_X_RESOURCE  "unset" | "true" (any case) | "false" (anything   *)
+(*         else: "All other values are ignored")                                 *)
+(*   ra  : the set of keys OTEL_RESOURCE_ATTRIBUTES provides                     *)
+(*   sn  : OTEL_SERVICE_NAME is set (non-blank)                                  *)
+(*   bad : OTEL_RESOURCE_ATTRIBUTES also holds a member without '='              *)
+SC == "sc"                       \* the schema URL shared by the SDK's own detectors
+SvcK == "service.name"
+SidK == "service.instance.id"
+SdkKeys == {"telemetry.sdk.name", "telemetry.sdk.language", "telemetry.sdk.version"}
+Tag(keys, v) == {[k |-> kk, v |-> v] : kk \in keys}
+PTag(i) == <<"p1", "p2", "p3", "p4", "p5", "p6", "p7", "p8", "p9">>[i]
+
+(* the documented attribute set of every built-in option ("WithProcess ... is    *)
+(* equivalent to calling WithProcessPID, WithProcessExecutableName, ...")        *)
+ProcKeys == {"process.pid", "process.executable.name", "process.executable.path", "process.command_args",
+             "process.owner", "process.runtime.name", "process.runtime.version", "process.runtime.description"}
+BuiltinKeys(b) ==
+  CASE b = "sdk"        -> SdkKeys
+    [] b = "host"       -> {"host.name"}
+    [] b = "hostid"     -> {"host.id"}
+    [] b = "os"         -> {"os.type", "os.description"}
+    [] b = "ostype"     -> {"os.type"}
+    [] b = "osdesc"     -> {"os.description"}
+    [] b = "proc"       -> ProcKeys
+    [] b = "procpid"    -> {"process.pid"}
+    [] b = "procexe"    -> {"process.executable.name"}
+    [] b = "procpath"   -> {"process.executable.path"}
+    [] b = "procargs"   -> {"process.command_args"}
+    [] b = "procowner"  -> {"process.owner"}
+    [] b = "procrtname" -> {"process.runtime.name"}
+    [] b = "procrtver"  -> {"process.runtime.version"}
+    [] b = "procrtdesc" -> {"process.runtime.description"}
+    [] b = "container"  -> {"container.id"}
+    [] b = "containerid" -> {"container.id"}
+BuiltinDet(b) == [res |-> Res(Tag(BuiltinKeys(b), "gen"), SC), out |-> "ok"]
+
+(* The environment detector: OTEL_RESOURCE_ATTRIBUTES < OTEL_SERVICE_NAME, no    *)
+(* schema URL.  With a malformed member the statement admits keeping the         *)
+(* well-formed pairs or discarding the whole variable (see EnvModel.AttrAdm);    *)
+(* both report ErrPartialResource, so what was detected is still merged, and     *)
+(* OTEL_SERVICE_NAME is applied either way.                                      *)
+EnvSvc(e) == IF e.sn THEN Tag({SvcK}, "envsvc") ELSE {}
+EnvAttrs(e) == Union(Tag(e.ra, "env"), EnvSvc(e))
+EnvDetAdm(e) ==
+  IF e.bad THEN {[res |-> Res(EnvAttrs(e), ""), out |-> "partial"], [res |-> Res(EnvSvc(e), ""), out |-> "partial"]}
+  ELSE {[res |-> Res(EnvAttrs(e), ""), out |-> "ok"]}
+
+(* Default(): "a default service.name and OpenTelemetrySDK attributes".          *)
+(*   defaults (service.name = unknown_service:<exe>; with the experimental flag   *)
+(*             a generated service.instance.id -- a DEFAULT value)                *)
+(*     <  environment (OTEL_RESOURCE_ATTRIBUTES < OTEL_SERVICE_NAME)              *)
+(*     <  telemetry.sdk.* (the SDK MUST set them: not overridable from outside)   *)
+(* written with the parameters the trace specification instantiates from real    *)
+(* observations (key names, the SDK's schema URL, the observed env / sdk layers). *)
+DefaultLayers(xOn, svcK, sidK, sc, envdet, sdkdet) ==
+  <<[res |-> Res(Tag({svcK}, "gen") \cup (IF xOn THEN Tag({sidK}, "gen") ELSE {}), sc), out |-> "ok"], envdet, sdkdet>>
+DefaultOut(xOn, svcK, sidK, sc, envdet, sdkdet) ==
+  LET o == DetectOut("", DefaultLayers(xOn, svcK, sidK, sc, envdet, sdkdet))
+  IN [attrs |-> o.attrs, schema |-> o.schema]
+DefaultAdm(e) == {DefaultOut(e.x = "true", SvcK, SidK, SC, ed, BuiltinDet("sdk")) : ed \in EnvDetAdm(e)}
+
+(* order-free characterisation (TLC invariant of every enumerated setting) *)
+DefaultLaw(e) ==
+  /\ DefaultAdm(e) # {}
+  /\ \A ed \in EnvDetAdm(e) :
+       LET r == DefaultOut(e.x = "true", SvcK, SidK, SC, ed, BuiltinDet("sdk"))
+           ek == KeysOf(ed.res.attrs)          \* what the environment contributes under this reading
+           ks == KeysOf(r.attrs)
+       IN /\ Functional(r.attrs) /\ r.schema = SC
+          /\ ks = {SvcK} \cup SdkKeys \cup ek \cup (IF e.x = "true" THEN {SidK} ELSE {})   \* nothing lost, nothing invented
+          /\ \A k \in SdkKeys : Lookup(r.attrs, k) = "gen"                  \* never overridden from outside
+          /\ \A k \in ek \ SdkKeys : Lookup(r.attrs, k) = Lookup(ed.res.attrs, k)   \* the environment beats every default,
+          /\ \A k \in ks \ ek : Lookup(r.attrs, k) = "gen"                 \*   the generated instance id included
+          /\ (e.sn => Lookup(r.attrs, SvcK) = "envsvc")                    \* OTEL_SERVICE_NAME beats everything
+          /\ (~e.bad => ek = e.ra \cup (IF e.sn THEN {SvcK} ELSE {}))
+
+(* New(ctx, opts...): "options applied in order": every option contributes its   *)
+(* detectors in list order, Detect merges them in that order (later wins, schema *)
+(* rule per Merge, errors collected); WithSchemaURL sets the schema URL the      *)
+(* result starts from.  An option is [t, b, keys, schema, out, nil]:             *)
+(*   t = "env"    WithFromEnv                                                    *)
+(*   t = "bi"     built-in b (WithTelemetrySDK, WithHost, WithOS, WithProcess..) *)
+(*   t = "attrs"  WithAttributes over keys (values tagged by position)           *)
+(*   t = "det"    WithDetectors(scripted): keys, schema, outcome out, nil result *)
+(*   t = "schema" WithSchemaURL(schema)                                          *)
+OptDet(o, i, ed) ==
+  CASE o.t = "env"   -> ed
+    [] o.t = "bi"    -> BuiltinDet(o.b)
+    [] o.t = "attrs" -> [res |-> Res(Tag(o.keys, PTag(i)), ""), out |-> "ok"]
+    [] o.t = "det"   -> [res |-> IF o.nil THEN NilRes ELSE Res(Tag(o.keys, PTag(i)), o.schema), out |-> o.out]
+DetIdx(opts) == {i \in 1..Len(opts) : opts[i].t # "schema"}
+RECURSIVE DetsFrom(_, _, _)
+DetsFrom(opts, i, ed) ==
+  IF i > Len(opts) THEN <<>>
+  ELSE (IF opts[i].t = "schema" THEN <<>> ELSE <<OptDet(opts[i], i, ed)>>) \o DetsFrom(opts, i + 1, ed)
+(* index of the k-th detector in the option list (errors are reported per option position) *)
+RECURSIVE PosFrom(_, _)
+PosFrom(opts, i) ==
+  IF i > Len(opts) THEN <<>>
+  ELSE (IF opts[i].t = "schema" THEN <<>> ELSE <<i>>) \o PosFrom(opts, i + 1)
+BaseOf(opts) == LET S == {i \in 1..Len(opts) : opts[i].t = "schema"} IN
+                IF S = {} THEN "" ELSE opts[CHOOSE i \in S : \A j \in S : j <= i].schema
+NewOutWith(opts, ed) ==
+  LET o == DetectOut(BaseOf(opts), DetsFrom(opts, 1, ed))
+      pos == PosFrom(opts, 1)
+  IN [o EXCEPT !.partials = {pos[j] : j \in @}, !.fails = {pos[j] : j \in @}]
+NewAdm(e, opts) == {NewOutWith(opts, ed) : ed \in EnvDetAdm(e)}
+NewLaw(e, opts) ==
+  /\ NewAdm(e, opts) # {}
+  /\ \A ed \in EnvDetAdm(e) : DetectLaw(BaseOf(opts), DetsFrom(opts, 1, ed))
+  /\ (e.sn => \A ed \in EnvDetAdm(e) : [k |-> SvcK, v |-> "envsvc"] \in ed.res.attrs)
 =============================================================================
